@@ -1,9 +1,122 @@
 import Driver.Util
-/-! driver ops of C03 (prefix `c03.`); filled in by the C03 work -/
+import Model.Render
+import Model.Message
+/-! driver ops of C03 (prefix `c03.`): message rendering, parsing, header-field codecs.
+Message syntax (space separated tokens, see `harness/props/C03.py`):
+  `H:<id>:<flags>:<origin|none>:<requestPayload>:<pad>`
+  `O:<ttl>:<payload>:<opts>`           opts = `_` | `otype.hex;otype.hex…`
+  `T:<name>:<alg>:<time>:<fudge>:<mac>:<origid>:<error>:<other>`
+  `S<sec>:<name>:<class>:<type>:<covers>:<deleting|->:<ttl>:<rdatas>`   rdatas = `_` | rd;rd…
+  rd = `o.<hex>` | `n.<name>` | `m.<pref>.<name>` | `s.<mname>.<rname>.<serial>.<refresh>.<retry>.<expire>.<minimum>` -/
 namespace Driver
 open Model
 
+def parseRD (s : String) : Option RData :=
+  match s.splitOn "." with
+  | ["o", h] => (ofHex h).map .raw
+  | ["n", n] => (parseName n).map .name1
+  | ["m", p, n] => do some (.mx (← p.toNat?) (← parseName n))
+  | ["s", m, r, a, b, c, d, e] => do
+    some (.soa (← parseName m) (← parseName r) (← a.toNat?) (← b.toNat?) (← c.toNat?) (← d.toNat?) (← e.toNat?))
+  | _ => none
+
+def showRD : RData → String
+  | .raw b => "o." ++ toHexP b
+  | .name1 n => "n." ++ showName n
+  | .mx p n => s!"m.{p}.{showName n}"
+  | .soa m r a b c d e => s!"s.{showName m}.{showName r}.{a}.{b}.{c}.{d}.{e}"
+
+def parseRDs (s : String) : Option (List RData) :=
+  if s = "_" then some [] else (s.splitOn ";").mapM parseRD
+
+def showRDs (l : List RData) : String :=
+  if l.isEmpty then "_" else ";".intercalate (l.map showRD)
+
+def parseOpts (s : String) : Option (List (Nat × Bytes)) :=
+  if s = "_" then some [] else (s.splitOn ";").mapM fun x =>
+    match x.splitOn "." with
+    | [t, h] => do some (← t.toNat?, ← ofHex h)
+    | _ => none
+
+def showOpts (l : List (Nat × Bytes)) : String :=
+  if l.isEmpty then "_" else ";".intercalate (l.map fun p => s!"{p.1}.{toHexP p.2}")
+
+def showRRset (sec : Nat) (r : RRset) : String :=
+  let del := match r.deleting with | some d => toString d | none => "-"
+  s!"S{sec}:{showName r.name}:{r.rdclass}:{r.rdtype}:{r.covers}:{del}:{r.ttl}:{showRDs r.rdatas}"
+
+def showOpt (o : EOpt) : String := s!"O:{o.ttl}:{o.payload}:{showOpts o.options}"
+
+def showTsig (t : Tsig) : String :=
+  s!"T:{showName t.name}:{showName t.alg}:{t.time}:{t.fudge}:{toHexP t.mac}:{t.origId}:{t.error}:{toHexP t.other}"
+
+def showMessage (m : Message) : String :=
+  let org := match m.origin with | some o => showName o | none => "none"
+  let parts := [s!"H:{m.id}:{m.flags}:{org}:{m.requestPayload}:{m.pad}"]
+    ++ (match m.opt with | some o => [showOpt o] | none => [])
+    ++ (match m.tsig with | some t => [showTsig t] | none => [])
+    ++ m.q.map (showRRset 0) ++ m.an.map (showRRset 1) ++ m.au.map (showRRset 2) ++ m.ad.map (showRRset 3)
+  " ".intercalate parts
+
+def parseToken (m : Message) (tok : String) : Option Message :=
+  match tok.splitOn ":" with
+  | ["H", id, flags, org, rp, pad] => do
+    some { m with id := ← id.toNat?, flags := ← flags.toNat?, origin := ← parseOptName org,
+                  requestPayload := ← rp.toNat?, pad := ← pad.toNat? }
+  | ["O", ttl, payload, opts] => do
+    some { m with opt := some { ttl := ← ttl.toNat?, payload := ← payload.toNat?, options := ← parseOpts opts } }
+  | ["T", name, alg, time, fudge, mac, oid, err, other] => do
+    some { m with tsig := some { name := ← parseName name, alg := ← parseName alg, time := ← time.toNat?,
+                                 fudge := ← fudge.toNat?, mac := ← ofHex mac, origId := ← oid.toNat?,
+                                 error := ← err.toNat?, other := ← ofHex other } }
+  | [s, name, cls, typ, cov, del, ttl, rds] => do
+    let del ← if del = "-" then some none else del.toNat?.map some
+    let r : RRset := { name := ← parseName name, rdclass := ← cls.toNat?, rdtype := ← typ.toNat?,
+                       covers := ← cov.toNat?, deleting := del, ttl := ← ttl.toNat?, rdatas := ← parseRDs rds }
+    if s = "S0" then some { m with q := m.q ++ [r] }
+    else if s = "S1" then some { m with an := m.an ++ [r] }
+    else if s = "S2" then some { m with au := m.au ++ [r] }
+    else if s = "S3" then some { m with ad := m.ad ++ [r] }
+    else none
+  | _ => none
+
+def parseMsgTokens (toks : List String) : Option Message :=
+  toks.foldlM parseToken { id := 0, flags := 0 }
+
+def showRender (r : Except RErr Bytes) : String :=
+  match r with
+  | .ok b => "ok " ++ toHexP b
+  | .error e => "err " ++ e.toString
+
 def handleC03 : List String → Option String
+  | "c03.render" :: ms :: pt :: rest => do
+    let m ← parseMsgTokens rest
+    some (showRender (m.toWire (← ms.toNat?) (← parseBool pt)))
+  | ["c03.parse", w, org, orr, it, key] => do
+    let w ← ofHex w
+    let cfg : PCfg := { origin := ← parseOptName org, oneRRPerRRset := ← parseBool orr,
+                        ignoreTrailing := ← parseBool it, hasKey := ← parseBool key }
+    some (match parseMessage cfg w with
+      | .ok m => "ok " ++ showMessage m
+      | .error e => "err " ++ e.toString)
+  | "c03.counts" :: rest => do
+    let m ← parseMsgTokens rest
+    let (a, b, c, d) := m.sectionCounts
+    some s!"ok {a} {b} {c} {d}"
+  | ["c03.rcode.from", f, e] => do some s!"ok {rcodeFromFlags (← f.toNat?) (← e.toNat?)}"
+  | ["c03.rcode.to", v] => do
+    some (match rcodeToFlags (← v.toNat?) with
+      | some (a, b) => s!"ok {a} {b}"
+      | none => "err ValueError")
+  | ["c03.opcode.from", f] => do some s!"ok {opcodeFromFlags (← f.toNat?)}"
+  | ["c03.opcode.to", v] => do some s!"ok {opcodeToFlags (← v.toNat?)}"
+  | ["c03.setrcode", f, e, v] => do
+    some (match setRcode (← f.toNat?) (← e.toNat?) (← v.toNat?) with
+      | some (a, b) => s!"ok {a} {b}"
+      | none => "err ValueError")
+  | ["c03.hdr", f, e] => do
+    let m : Message := { id := 0, flags := ← f.toNat?, opt := some { ttl := ← e.toNat?, payload := 0, options := [] } }
+    some s!"ok rcode={m.rcode} opcode={m.opcode} edns={m.edns.getD 0} update={isUpdate m.flags}"
   | _ => none
 
 end Driver
